@@ -149,6 +149,27 @@ fn explain_output_diff(
     )
 }
 
+/// Multiset difference of two sorted diagnostic lists: (surplus in a, surplus in b).
+fn multiset_diff(a: &[vproj::Diag], b: &[vproj::Diag]) -> (Vec<String>, Vec<String>) {
+    let mut count: BTreeMap<&vproj::Diag, i64> = BTreeMap::new();
+    for x in a {
+        *count.entry(x).or_default() += 1;
+    }
+    for x in b {
+        *count.entry(x).or_default() -= 1;
+    }
+    let mut oa = vec![];
+    let mut ob = vec![];
+    for (d, n) in count {
+        if n > 0 {
+            oa.push(format!("{}x {}", n, d.short()));
+        } else if n < 0 {
+            ob.push(format!("{}x {}", -n, d.short()));
+        }
+    }
+    (oa, ob)
+}
+
 /// Development aid: with VERIF_KEEP_TIMEOUT set, the reproducer script of a
 /// timed-out case is written to /verif/.work/c04-timeout-<n>.sh.
 fn keep_for_debug(ws: &Workspace) {
@@ -178,10 +199,14 @@ fn one_history(d: &mut Draw, thorough: bool) -> Outcome {
     let ws = Workspace::new("c04", &p.cfg.name);
     let mut ed = Editor::create(&p, &ws);
     let initial = p.summary();
+    let cyclic_replaced = p.counter_cyclic_placements > 0;
 
     let n_steps = d.usize_in(4, 12);
     let mut steps: Vec<String> = vec![];
     let mut classes: BTreeSet<String> = BTreeSet::new();
+    if cyclic_replaced {
+        classes.insert("excluded_file_cycle_placement_replaced".into());
+    }
     let mut edits = 0usize;
     let mut nontrivial = false;
     let mut since = Since::default();
@@ -338,8 +363,7 @@ fn one_history(d: &mut Draw, thorough: bool) -> Outcome {
             } else {
                 "diagnostics/unexplained"
             };
-            let only_cold: Vec<String> = cd.iter().filter(|x| !wd.contains(x)).map(|x| x.short()).collect();
-            let only_warm: Vec<String> = wd.iter().filter(|x| !cd.contains(x)).map(|x| x.short()).collect();
+            let (only_cold, only_warm) = multiset_diff(&cd, &wd);
             return Outcome::fail(
                 sig,
                 format!(
@@ -429,9 +453,113 @@ fn one_history(d: &mut Draw, thorough: bool) -> Outcome {
     )
 }
 
+/// A hand-written history (reproducers of listed findings, `known/C04/*.json`):
+/// `{"toml": text, "files": {rel: text}, "steps": [step…]}` with steps
+/// `{"op":"cmd","cmd":"build"|"check"}`,
+/// `{"op":"write","rel":…,"text":…,"kind":"plain"|"older"|"generic_user"}`,
+/// `{"op":"toml","text":…,"kind":"build_option"|"format"}`.
+/// Same oracle as the generated histories; the step kinds feed the same
+/// root-cause naming.
+fn scripted(pl: &serde_json::Value) -> Outcome {
+    let ws = Workspace::new("c04s", "prj");
+    ws.write("Veryl.toml", pl["toml"].as_str().unwrap_or(""));
+    if let Some(files) = pl["files"].as_object() {
+        for (rel, text) in files {
+            ws.write(rel, text.as_str().unwrap_or(""));
+        }
+    }
+    let mut older = false;
+    let mut opts = false;
+    let mut format = false;
+    let mut generic = false;
+    let mut hashed = false; // older/opts followed by a saving check
+    let mut log = vec![];
+    let empty = vec![];
+    for st in pl["steps"].as_array().unwrap_or(&empty) {
+        match st["op"].as_str().unwrap_or("") {
+            "write" => {
+                let rel = st["rel"].as_str().unwrap_or("");
+                let text = st["text"].as_str().unwrap_or("");
+                match st["kind"].as_str().unwrap_or("plain") {
+                    "older" => {
+                        ws.write_older(rel, text, 1);
+                        older = true;
+                    }
+                    "generic_user" => {
+                        ws.write(rel, text);
+                        generic = true;
+                    }
+                    _ => ws.write(rel, text),
+                }
+                log.push(format!("write {rel} ({})", st["kind"].as_str().unwrap_or("plain")));
+            }
+            "toml" => {
+                ws.write("Veryl.toml", st["text"].as_str().unwrap_or(""));
+                match st["kind"].as_str().unwrap_or("") {
+                    "format" => format = true,
+                    _ => opts = true,
+                }
+                log.push(format!("Veryl.toml ({})", st["kind"].as_str().unwrap_or("")));
+            }
+            "cmd" => {
+                let cmd = st["cmd"].as_str().unwrap_or("build");
+                ws.save_state("keep");
+                ws.drop_cache();
+                let cold = ws.veryl(&[cmd]);
+                let cold_out = ws.outputs();
+                ws.restore_state("keep", true);
+                let warm = ws.veryl(&[cmd]);
+                let warm_out = ws.outputs();
+                if cold.timed_out || warm.timed_out {
+                    return Outcome::skip("a command timed out");
+                }
+                log.push(format!("veryl {cmd}: cold {:?} warm {:?} restored {:?}", cold.code, warm.code, warm.restored));
+                let input = json!({"payload": pl, "log": log, "script": ws.script()});
+                if cold.code != warm.code {
+                    return Outcome::fail(format!("exit-status/{cmd}"), format!("scripted history: {log:#?}"), input);
+                }
+                if cold.diag_multiset() != warm.diag_multiset() {
+                    let (a, b) = multiset_diff(&cold.diag_multiset(), &warm.diag_multiset());
+                    return Outcome::fail(
+                        "diagnostics/unexplained",
+                        format!("scripted history: {log:#?}\nonly fresh: {a:#?}\nonly cached: {b:#?}"),
+                        input,
+                    );
+                }
+                if let Some(diff) = diff_trees(&cold_out, &warm_out, "fresh-cache", "cached") {
+                    let sig = if hashed {
+                        "output/check-stored-entry-trusted-by-build"
+                    } else if format {
+                        "output/format-section-not-in-cache-key"
+                    } else if generic {
+                        "output/generic-definer-not-reemitted"
+                    } else {
+                        "output/unexplained:scripted"
+                    };
+                    return Outcome::fail(sig, format!("scripted history: {log:#?}\n{diff}"), input);
+                }
+                if cmd == "check" && warm.errors().is_empty() && (older || opts) {
+                    hashed = true;
+                }
+                if cmd == "build" && warm.code == Some(0) {
+                    older = false;
+                    opts = false;
+                    format = false;
+                    generic = false;
+                    hashed = false;
+                }
+            }
+            _ => {}
+        }
+    }
+    let text = log.join("\n");
+    Outcome::pass(hash_str(&text), true, vec!["scripted".into()], text)
+}
+
 pub fn run(ctx: &Ctx) {
     let thorough = !ctx.is_quick();
-    let mut n = ctx.scale(240, 6000);
+    ctx.run_payloads("scripted", scripted);
+    let mut n = ctx.scale(200, 6000);
     if let Some(k) = std::env::var("VERIF_C04_CASES").ok().and_then(|x| x.parse().ok()) {
         n = k; // development aid
     }
